@@ -10,7 +10,7 @@ ID = 'C05'
 ENGINE = 'E1 choice-point explorer, deviation-bounded over {full, bare} default objects'
 RULE = ("same lattice as C04 with value palettes per attribute kind (ints at code edges, floats incl. -0.0, inf, NaN, "
         "max, subnormal, numpy scalars; ASCII lengths 0..300; IDENT up to 255; aware/naive datetimes and both string "
-        "formats; enum members and free strings; references) x assignment route {keyword, dict, AttrSetup, later "
+        "formats; enum members and free strings; references) x assignment route {keyword, dict, one dict object re-used for equal values, AttrSetup, later "
         ".value/.units, set_attributes}; plus, per attribute, a chain write -> re-assign to every value option in turn -> "
         "write, each file compared with the model; plus a channel inside a frame with data (user DIMENSION / ELEMENT-LIMIT vs the values derived at write time, full product over width, source, topology); non-trivial = file written and every object of the logical file compared "
         "attribute by attribute with the model")
@@ -134,6 +134,9 @@ def body(ctx, shard):
             viol.append((f"C05:unparsable:{e.code}:write-after-rejected-write", f"{e} | {shard}"))
         return Outcome('write-raised:repaired-and-rewritten', viol, True, digest=sha(data))
     viol = []
+    if res.get('caller_dicts_changed'):
+        viol.append(("C05:caller-dict-changed", f"a dict passed as attribute set-up lost keys: {res['caller_dicts_changed'][:2]} | "
+                                                f"kind={shard['kind']}"))
     try:
         lfs = R.split_logical_files(R.parse_physical(res['data']))
         m = M.Model(sp)
